@@ -219,9 +219,14 @@ def check_A(c, rec):
 def gen_B(rng, tier):
   shapes = [(6, 5), (8, 3), (5, 4, 3), (7,), (4, 6), (3, 4, 5), (9, 2), (6, 6)]
   shape = shapes[int(rng.integers(0, len(shapes)))]
-  return {"driver": "B", "shape": list(shape), "k": int(rng.integers(1, 4)), "b": float(rng.choice([1.0, 0.999, 0.9, 0.5])),
-          "eps": float(rng.choice([0.0, 1e-7, 1e-3])), "rel": bool(rng.integers(0, 2)), "freq": int(rng.choice([1, 1, 2])),
-          "fam": FAMS[int(rng.integers(0, len(FAMS)))], "T": int(rng.integers(3, 11 if tier == "quick" else 31)), "hseed": int(rng.integers(0, 2 ** 31))}
+  c = {"driver": "B", "shape": list(shape), "k": int(rng.integers(1, 4)), "b": float(rng.choice([1.0, 0.999, 0.9, 0.5])),
+       "eps": float(rng.choice([0.0, 1e-7, 1e-3])), "rel": bool(rng.integers(0, 2)), "freq": int(rng.choice([1, 1, 2])),
+       "fam": FAMS[int(rng.integers(0, len(FAMS)))], "T": int(rng.integers(3, 11 if tier == "quick" else 31)), "hseed": int(rng.integers(0, 2 ** 31))}
+  if rng.random() < 0.35:
+    # ekfac_svd: a trial FD step runs on EVERY optimizer step, the sketch (directions, eigenvalues, escaped mass) must still
+    # follow the recursion of the update steps only
+    c.update(ekfac=True, freq=int(rng.choice([2, 3])), T=max(c["T"], 7))
+  return c
 
 
 def check_B(c, rec):
@@ -231,7 +236,10 @@ def check_B(c, rec):
   rng = np.random.default_rng(c["hseed"])
   shape = tuple(c["shape"])
   wit = dict(c)
-  opt = sketchy.apply(sketchy.Options(rank=c["k"], second_moment_decay=c["b"], epsilon=c["eps"], relative_epsilon=c["rel"], update_freq=c["freq"]))
+  opt = sketchy.apply(sketchy.Options(rank=c["k"], second_moment_decay=c["b"], epsilon=c["eps"], relative_epsilon=c["rel"], update_freq=c["freq"],
+                                     ekfac_svd=bool(c.get("ekfac"))))
+  if c.get("ekfac"):
+    rec.count("cases_B_ekfac")
   p0 = {"w": jnp.zeros(shape, jnp.float32)}
   st = opt.init(p0)
   upd = jax.jit(opt.update)
